@@ -469,6 +469,9 @@ func execBuild(t []string) string {
 	if len(t) >= 1 && (t[0] == "spec" || t[0] == "valid") {
 		return "ok"
 	}
+	if len(t) >= 1 && t[0] == "copydata" {
+		return execCopyData(t)
+	}
 	if len(t) < 5 {
 		return "bad-op"
 	}
@@ -859,6 +862,108 @@ func structCapsAgree(a, b capnp.Struct, depth int) string {
 	return ""
 }
 
+// execCopyData: "build copydata <src hex|-> <dw> <n> <idx> <old hex>": `copyStruct`'s data path on real memory.
+// The source is an element of a List(UInt8/16/32) (1, 2 or 4 bytes) or a struct of len(src)/8 words; the destination is
+// element idx of a list of n elements of dw bytes each (a primitive list for dw 1, 2, 4; a composite list else) that
+// holds <old>, with an 8-byte object (0xcc…) allocated right behind it.  Output: the list's bytes and the object's after
+// the copy (Model.CopyStruct.copyInto).
+func execCopyData(t []string) string {
+	if len(t) != 6 {
+		return "bad-op"
+	}
+	unhex := func(s string) ([]byte, bool) {
+		if s == "-" {
+			return nil, true
+		}
+		b, err := lib.UnHex(s)
+		return b, err == nil
+	}
+	src, ok1 := unhex(t[1])
+	old, ok2 := unhex(t[5])
+	dw, _ := strconv.Atoi(t[2])
+	n, _ := strconv.Atoi(t[3])
+	idx, _ := strconv.Atoi(t[4])
+	if !ok1 || !ok2 || n <= 0 || idx < 0 || idx >= n || len(old) != n*dw {
+		return "bad-op"
+	}
+	prim := func(seg *capnp.Segment, w, n int) (capnp.List, error) {
+		switch w {
+		case 1:
+			l, err := capnp.NewUInt8List(seg, int32(n))
+			return l.List, err
+		case 2:
+			l, err := capnp.NewUInt16List(seg, int32(n))
+			return l.List, err
+		default:
+			l, err := capnp.NewUInt32List(seg, int32(n))
+			return l.List, err
+		}
+	}
+	_, sseg, err := capnp.NewMessage(capnp.SingleSegment(nil))
+	if err != nil {
+		return "builderr"
+	}
+	var s capnp.Struct
+	switch len(src) {
+	case 1, 2, 4:
+		l, err := prim(sseg, len(src), 1)
+		if err != nil {
+			return "builderr"
+		}
+		s = l.Struct(0)
+	default:
+		if len(src)%8 != 0 {
+			return "bad-op"
+		}
+		s, err = capnp.NewStruct(sseg, capnp.ObjectSize{DataSize: capnp.Size(len(src))})
+		if err != nil {
+			return "builderr"
+		}
+	}
+	for k, b := range src {
+		s.SetUint8(capnp.DataOffset(k), b)
+	}
+	_, dseg, err := capnp.NewMessage(capnp.SingleSegment(nil))
+	if err != nil {
+		return "builderr"
+	}
+	var l capnp.List
+	if dw == 1 || dw == 2 || dw == 4 {
+		l, err = prim(dseg, dw, n)
+	} else {
+		if dw%8 != 0 {
+			return "bad-op"
+		}
+		l, err = capnp.NewCompositeList(dseg, capnp.ObjectSize{DataSize: capnp.Size(dw)}, int32(n))
+	}
+	if err != nil {
+		return "builderr"
+	}
+	behind, err := capnp.NewData(dseg, []byte{0xcc, 0xcc, 0xcc, 0xcc, 0xcc, 0xcc, 0xcc, 0xcc})
+	if err != nil {
+		return "builderr"
+	}
+	for k, b := range old {
+		l.Struct(k/dw).SetUint8(capnp.DataOffset(k%dw), b)
+	}
+	if idx%2 == 0 {
+		err = l.SetStruct(idx, s)
+	} else {
+		err = l.Struct(idx).CopyFrom(s)
+	}
+	if err != nil {
+		return "copyerr"
+	}
+	out := make([]byte, 0, n*dw+8)
+	for k := 0; k < n*dw; k++ {
+		out = append(out, l.Struct(k/dw).Uint8(capnp.DataOffset(k%dw)))
+	}
+	for k := 0; k < 8; k++ {
+		out = append(out, behind.At(k))
+	}
+	return lib.Hex(out)
+}
+
 // execCopy: "build copy <arena> <mode> <seed> <val> <dstarena> <how> <ds> <pc>"
 func execCopy(t []string, mode int, seed uint64, v *Val) string {
 	if len(t) < 9 {
@@ -1240,6 +1345,28 @@ func genBuild(rec *lib.Rec, r *lib.Rng, thorough bool, which string) {
 			}
 			rec.Op("S", "build copy "+arena+" "+mode+" "+seed+" "+vs+" "+dst+" "+strconv.Itoa(how)+" "+strconv.Itoa(r.Intn(4))+" "+strconv.Itoa(r.Intn(4)), true)
 			rec.Count("how " + strconv.Itoa(how))
+			if i%5 == 0 {
+				// the data path of copyStruct against Model.CopyStruct: sub-word and whole-word sources and destinations
+				sw := r.Pick(0, 1, 2, 4, 8, 16, 24)
+				dwd := r.Pick(1, 2, 4, 8, 16)
+				nn := 1 + r.Intn(5)
+				sb := make([]byte, sw)
+				for k := range sb {
+					sb[k] = byte(r.Pick(0, 1+r.Intn(255), 1+r.Intn(255)))
+				}
+				ob := make([]byte, nn*dwd)
+				for k := range ob {
+					ob[k] = byte(0x80 | r.Intn(128))
+				}
+				hx := func(b []byte) string {
+					if len(b) == 0 {
+						return "-"
+					}
+					return lib.Hex(b)
+				}
+				rec.Op("M", "build copydata "+hx(sb)+" "+strconv.Itoa(dwd)+" "+strconv.Itoa(nn)+" "+strconv.Itoa(r.Intn(nn))+" "+hx(ob), true)
+				rec.Count("copydata")
+			}
 		}
 	}
 }
